@@ -24,7 +24,7 @@ EXPLANATION = (
     "(T+,-v+) and (T-,-v-) solve both equations with the constants of "
     "findHydroBoundaries; the point solver always terminates and returns the minimiser / "
     "(0,0) / a root in the FIRST sign-change bracket of the geometric sequence on the "
-    "side selected by |Tn-T+|<1e-10; on the root path both components are conserved; the "
+    "side selected by |Tn-T+|<1e-10 Tn; on the root path both components are conserved; the "
     "success flag is true exactly when no point returned (0,0), so 'success => T33' is "
     "REFUTED by a witness (no root: the minimiser is returned), replayed on the code. "
     "Model values are compared with the implementation (on stub collaborators) by "
@@ -150,10 +150,10 @@ Definition S2 (f : FieldPt) := sum_list (map (fun x : R => x ^ 2) f).
 Definition pot_dT (f : FieldPt) (T : R) := - 4 * %s * T ^ 3 + 2 * %s * S2 f * T.
 Definition pot_V (f : FieldPt) (T : R) := - %s * T ^ 4 + %s * S2 f * T ^ 2 + %s * S2 f ^ 2.
 Definition e0 (tm : R) (rb : R -> R -> R) :=
-  mk_env %s pot_dT pot_V %s [%s] (fun _ _ _ => tm) (fun _ x y _ _ => rb x y).
+  mk_env %s pot_dT pot_V %s [%s] (fun _ _ _ _ => tm) (fun _ x y _ _ => rb x y).
 (* same, the oracle returning a combination of the two tolerances it is handed *)
 Definition e0tol (tm : R) :=
-  mk_env %s pot_dT pot_V %s [%s] (fun _ _ _ => tm) (fun _ _ _ xt rt => xt + 3 * rt).
+  mk_env %s pot_dT pot_V %s [%s] (fun _ _ _ _ => tm) (fun _ _ _ xt rt => xt + 3 * rt).
 Definition tab (t : list (list R)) (i k : nat) : R := nth k (nth i t []) 0.
 Definition D0 := mk_Deltas %s %s %s %s.
 Definition fl : FieldPt := [%s].
@@ -287,10 +287,11 @@ def point_case(rng, kind):
     if kind in ("detk", "gaveup"):
         Tm = Fraction(float(T0) * rng.uniform(1.45, 1.6))
     if kind in ("det", "detk", "gaveup"):
-        case["Tn"] = Tp + rng.choice([Fraction(0), Fraction(5, 10 ** 11), -Fraction(5, 10 ** 11)])
+        # inside the relative window |Tn - T+| < 1e-10 Tn
+        case["Tn"] = Tp * (1 + rng.choice([Fraction(0), Fraction(5, 10 ** 11), -Fraction(5, 10 ** 11)]))
         case["Tn"] = Fraction(float(case["Tn"]))
     elif kind == "edge":      # just outside the 1e-10 window: still a deflagration
-        case["Tn"] = Fraction(float(Tp + rng.choice([1, -1]) * Fraction(2, 10 ** 10)))
+        case["Tn"] = Fraction(float(Tp * (1 + rng.choice([1, -1]) * Fraction(2, 10 ** 10))))
     else:
         case["Tn"] = Fraction(float(Tp) - rng.uniform(0.01, 0.2))
     case.update(c1=c1, c2=c2, Tplus=Tp, Tminus=Tm,
@@ -320,14 +321,15 @@ def point_eval(ctx, case):
         # the give-up outcome: certified through theorem no_bracket_returns_zero (the LHS is
         # negative on (0, B], proved by interval bisection in T)
         info["path"] = "gaveup"
-        det = abs(float(case["Tn"]) - float(case["Tplus"])) < 1e-10
+        det = abs(float(case["Tn"]) - float(case["Tplus"])) < 1e-10 * float(case["Tn"])
         M = min(float(case["Tminus"]) / p["tmin"], 0.8)
         if not det or not (0 < M <= 1) or p["path"] != "early":
             return None, 0.0, info
         B = Fraction(p["tmin"] * M) * (1 + Fraction(1, 10 ** 6))
         grid_T = [float(B) * x / 64.0 for x in range(1, 65)]
         margin = min(min(-f(t) for t in grid_T) / scale, abs(p["fmin"]) / scale,
-                     abs(abs(float(case["Tn"]) - float(case["Tplus"])) - 1e-10) / 1e-10,
+                     abs(abs(float(case["Tn"]) - float(case["Tplus"])) / float(case["Tn"]) - 1e-10)
+                     / 1e-10,
                      abs(float(case["Tminus"]) / p["tmin"] - 0.8))
         goals.append(
             "Goal findPlasmaProfilePoint (e0 %s (fun x _ => x)) %s = Some (0, 0).\n"
@@ -345,7 +347,7 @@ def point_eval(ctx, case):
                     tm, rb, args, tm, R(Fraction(float(v))),
                     R(abs(Fraction(float(v))) * RTOL + ATOL)))
         return goals, margin, info
-    det = abs(float(case["Tn"]) - float(case["Tplus"])) < 1e-10
+    det = abs(float(case["Tn"]) - float(case["Tplus"])) < 1e-10 * float(case["Tn"])
     M = min(float(case["Tminus"]) / p["tmin"], 0.8) if det else \
         max(float(case["Tplus"]) / p["tmin"], 1.2)
     a, b = p["bracket"]
@@ -353,7 +355,8 @@ def point_eval(ctx, case):
     info.update(det=det, k=k, bracket=[a, b], root=p["root"])
     for j in range(k + 1):
         margin = min(margin, abs(f(p["tmin"] * M ** (j + 1))) / scale)
-    margin = min(margin, abs(abs(float(case["Tn"]) - float(case["Tplus"])) - 1e-10) / 1e-10)
+    margin = min(margin, abs(abs(float(case["Tn"]) - float(case["Tplus"])) / float(case["Tn"])
+                             - 1e-10) / 1e-10)
     margin = min(margin, abs(float(case["Tminus"]) / p["tmin"] - 0.8) if det else
                  abs(float(case["Tplus"]) / p["tmin"] - 1.2))
     hj = "(intros j Hj; " + " ".join("destruct j as [|j]; [ev|];" for _ in range(k)) + \
@@ -476,7 +479,7 @@ MODELS = {
     "quartic1_TeV": dict(kind="quartic", unit=1e-3, Tn=83.0e-3),
     "quartic1_T1": dict(kind="quartic", unit=1.0 / 80.0, Tn=83.0 / 80.0, tier="thorough"),
     "quartic1_u4": dict(kind="quartic", unit=1e-4, Tn=83.0e-4),
-    # only used to replay the recorded finding "minimiser-absolute-xatol" (Tn = 8.3e-7)
+    # directed case only (Tn = 8.3e-7; was the finding "minimiser-absolute-xatol", fixed 12044cf)
     "quartic1_u8": dict(kind="quartic", unit=1e-8, Tn=83.0e-8, tier="recorded"),
 }
 _CACHE = {}
@@ -801,12 +804,12 @@ def judge(ctx, name, vw, widths, offsets, shape, seed, amp, res, stats, errTol=1
                      % (d["k"], a, b, d["fa"], d["fb"], d["root"], d["froot_rel"], tag),
                      dict(rep, k=d["k"]))
             # conclusion of theorem root_accuracy_is_relative, measured: the returned temperature
-            # is within 1e-10 + errTol/10 |r| of the zero (relative: independent of the units)
-            bound = 1e-10 + errTol / 10 * abs(d["root_ref"])
+            # is within 1e-10 Tn + errTol/10 |r| of the zero (relative: independent of the units)
+            bound = 1e-10 * res["Tn"] + errTol / 10 * abs(d["root_ref"])
             if d["root_err"] > 1.01 * bound + 4e-16 * abs(d["root_ref"]):
                 fail("root-accuracy", d["root_err"] / bound,
                      "point %d: returned T=%.12g is %.2e away from the zero %.12g of the LHS, "
-                     "more than 1e-10 + errTol/10*|T| = %.2e (errTol=%g) [%s vw=%g]" % (
+                     "more than 1e-10*Tn + errTol/10*|T| = %.2e (errTol=%g) [%s vw=%g]" % (
                          d["k"], d["root"], d["root_err"], d["root_ref"], bound, errTol, tag, vw),
                      dict(rep, k=d["k"]))
             det = br == "detonation"
@@ -928,55 +931,22 @@ def direct_validation(ctx):
                             "below T- (back: T=%.8g, T-=%.8g)" % (res["T"][0], res["Tm"]))
         except Exception as ex:                          # noqa: BLE001
             ctx.log("replay of findings/C04_detonation_wrong_root.json raised %r" % ex)
-    # the RECORDED input of "minimiser-absolute-xatol" (unit system with T ~ 1e-6)
+    # DIRECTED case (fixed in 12044cf: tolerances of the point solver relative to the temperature
+    # scale): a unit system with T ~ 1e-6; judged like any other profile, a failure is a VIOLATION
     rpath = os.path.join(vlib.VERIF, "findings", "C04_minimiser_xatol.json")
     if os.path.exists(rpath):
         with open(rpath) as fh:
             ri = json.load(fh)
-        try:
-            res = run_profile(ri["model"], ri["vw"], ri["widths"], ri["offsets"], ri["moments"],
+        for vw_d in (ri["vw"], 0.58, 0.3):
+            res = run_profile(ri["model"], vw_d, ri["widths"], ri["offsets"], ri["moments"],
                               ri["seed"], ri["amp"], errTol=ri.get("errTol", 1e-6))
-            ctx.count("recorded_finding_replayed", nontrivial=False)
+            ctx.count("directed_small_units", nontrivial=False)
             if res.get("nohydro"):
-                ctx.log("recorded input findings/C04_minimiser_xatol.json: no profile (%s)" %
-                        res.get("why"))
+                ctx.broken.append("harness: directed small-unit case has no profile (%s)" %
+                                  res.get("why"))
             else:
-                span = 2 * max(res["Tp"], res["Tm"])
-                tol = tol_cons(ri.get("errTol", 1e-6))
-                pts = res["points"]
-                mech = span < 1e-5 and res["success"] and all(
-                    d["path"] == "early" and abs(d["tmin"] / span - 0.3819660112501051) < 1e-5
-                    and d["fmin_rel"] > 0 and abs(d["r33"] - d["fmin_rel"]) <= tol
-                    and abs(d["r30"]) <= tol for d in pts)
-                worst = max(pts, key=lambda d: abs(d["r33"]))
-                if mech and abs(worst["r33"]) > tol:
-                    top = {k: ri[k] for k in ("model", "vw", "widths", "offsets", "moments",
-                                              "seed", "amp")}
-                    top.update(kind="profile", errTol=ri.get("errTol", 1e-6), k=worst["k"],
-                               r33=worst["r33"], tmin_over_span=worst["tmin"] / span, span=span)
-                    what = ("unit system with 2 max(T+,T-) = %.3g < 1e-5: minimize_scalar (absolute "
-                            "xatol=1e-5) stops at its first golden-section point, all %d points "
-                            "take the no-root return with success=True, T33 off by %.2e |c2|, "
-                            "back/front ends %.1f%%/%.1f%% off (model %s vw=%g)" % (
-                                span, len(pts), worst["r33"],
-                                100 * abs(res["T"][0] / res["Tm"] - 1),
-                                100 * abs(res["T"][-1] / res["Tp"] - 1), ri["model"], ri["vw"]))
-                    ctx.cov["finding_minimiser_absolute_xatol"] = top
-                    if registered(ctx, "minimiser-absolute-xatol"):
-                        ctx.fail_input(what, top, key="minimiser-absolute-xatol")
-                    else:
-                        ctx.log("FINDING (not registered in known_findings.json, not counted):",
-                                what)
-                elif abs(worst["r33"]) > tol:
-                    ctx.fail_input("recorded small-unit input: T33 off by %.2e |c2| and NOT by the "
-                                   "recorded mechanism" % worst["r33"], dict(ri, k=worst["k"]),
-                                   key="T33:" + worst["path"])
-                else:
-                    ctx.log("recorded input findings/C04_minimiser_xatol.json now conserves "
-                            "T33 (worst %.2e)" % worst["r33"])
-        except Exception as ex:                          # noqa: BLE001
-            import traceback
-            ctx.log("replay of findings/C04_minimiser_xatol.json raised", traceback.format_exc())
+                judge(ctx, ri["model"], vw_d, ri["widths"], ri["offsets"], ri["moments"],
+                      ri["seed"], ri["amp"], res, stats, errTol=ri.get("errTol", 1e-6))
     # (model, velocity window) -- windows relative to the model's own cs / vJ, see below
     for name in MODELS:
         tier = MODELS[name].get("tier")
@@ -1371,7 +1341,7 @@ def run(ctx):
         "stub cases: random dyadic potentials -aT^4+bST^2+cS^2, 1-3 particles, 2 fields, "
         "anisotropic Delta tables (4 columns, random column index); decision cases built "
         "around a hydrodynamic state (subsonic and supersonic) with T+/T- 3-20% away from "
-        "the root, |Tn-T+| in {0, 5e-11, 2e-10, >1e-2}, and a no-root variant; cases whose "
+        "the root, |Tn-T+|/Tn in {0, 5e-11, 2e-10, >1e-2}, and a no-root variant; cases whose "
         "decisions have relative margin < 1e-6 are skipped. Real models: xSM BM1, the same "
         "with 10x light d.o.f. (weak: (T+-Tn)/Tn < 1e-3), a one-field quartic in GeV-like units "
         "(Tn=83) and the same physics in units with Tn=0.083 and Tn~1; wall velocities drawn in the "
